@@ -9,8 +9,9 @@ from . import solve_engine as E
 PROPERTY = "C05"
 LEVEL = "exploration"
 RULE = ("cases = small-domain flat programs with 1-3 hard and 1-5 soft statements (top level and nested under "
-        "if/else-if/else/implies) in one or two class blocks plus optional inline blocks, and a sequence of 1-3 calls "
-        "(randomize / randomize_with with different inline soft sets).  The hard solution set is enumerated; oracle: "
+        "if/else-if/else/implies, whose bodies may also hold hard statements before and after the soft ones) in one or two "
+        "class blocks plus optional inline blocks, and a sequence of 1-4 calls (randomize / randomize_with with different "
+        "inline soft sets; 30% of the histories contain a call that fails on a contradictory inline hard constraint).  The hard solution set is enumerated; oracle: "
         "(1) hard-satisfiable => never SolveFailure, (2) result in S_hard, (3) maximality from the result alone: no "
         "violated soft could be added to the satisfied ones within S_hard, (4) priority: the result lies in the greedy-by-"
         "priority set for some order consistent with 'later in the same block wins, inline over class'.  non-trivial = the "
@@ -23,15 +24,24 @@ ASSUMPTIONS = [
 ]
 
 
+def gen_body(d, g, depth):
+    """body of an if / else / implies arm: soft statements, optionally with hard statements before and after them"""
+    out = [gen_soft_stmt(d, g, depth)]
+    for _ in range(d.randint(0, 2)):
+        st = g.field_stmt(0) if d.chance(60) else gen_soft_stmt(d, g, depth)
+        out.insert(d.randint(0, len(out)), st)
+    return out
+
+
 def gen_soft_stmt(d, g, depth):
     r = d.randint(0, 99)
     if depth <= 0 or r < 65:
         return ["soft", g.cmp(1) if d.chance(70) else g.boolean(1)]
     if r < 85:
-        arms = [[g.cmp(0), [gen_soft_stmt(d, g, depth - 1)]] for _ in range(d.randint(1, 2))]
-        els = [gen_soft_stmt(d, g, depth - 1)] if d.chance(50) else None
+        arms = [[g.cmp(0), gen_body(d, g, depth - 1)] for _ in range(d.randint(1, 2))]
+        els = gen_body(d, g, depth - 1) if d.chance(50) else None
         return ["if", arms, els]
-    return ["implies", g.cmp(0), [gen_soft_stmt(d, g, depth - 1)]]
+    return ["implies", g.cmp(0), gen_body(d, g, depth - 1)]
 
 
 @hyp.composite
@@ -71,6 +81,15 @@ def cases(d):
             for _ in range(d.randint(1, 2)):
                 inl.append(gen_soft_stmt(d, g, 1))
             calls.append({"kind": "randomize_with", "seed": d.seed(), "inline": inl})
+    if d.chance(30):
+        # a call that fails (contradictory inline hard constraint, optionally with an inline soft) somewhere before the
+        # last call: the calls after it are judged like any other
+        rf_ = [f for f in fs if f["rand"]] or fs
+        x = ["f", d.choice(rf_)["name"]]
+        bad = [["expr", ["bin", "!=", x, x]]]
+        if d.chance(50):
+            bad.append(gen_soft_stmt(d, g, 0))
+        calls.insert(d.randint(0, len(calls) - 1), {"kind": "randomize_with", "seed": d.seed(), "inline": bad})
     cls["blocks"] = blocks
     prog = {"enums": en, "classes": [cls]}
     return {"prog": prog, "calls": calls}
